@@ -59,7 +59,7 @@ func runC04(rc *RunCtx) {
 				ct.TokenPair{RemoteDomain: 2, RemoteToken: Token(0), LocalToken: "uUSDC"},
 				ct.TokenPair{RemoteDomain: 2, RemoteToken: Token(1), LocalToken: "UUSDC"},
 				ct.TokenPair{RemoteDomain: 3, RemoteToken: Token(0), LocalToken: "ueure"},
-				ct.TokenPair{RemoteDomain: 3, RemoteToken: Token(1), LocalToken: ""}, // a pair imported without a local token
+				ct.TokenPair{RemoteDomain: 3, RemoteToken: Token(1), LocalToken: ""},           // a pair imported without a local token
 				ct.TokenPair{RemoteDomain: 2, RemoteToken: Token(5)[12:], LocalToken: "uusdc"}, // keyed by a bare 20-byte token: another key than the padded word
 				ct.TokenPair{RemoteDomain: 5, RemoteToken: Token(1), LocalToken: c04Voucher},
 				ct.TokenPair{RemoteDomain: 5, RemoteToken: Token(2), LocalToken: "factory/Noble1Creator/UTOKEN"})
@@ -290,7 +290,7 @@ func c08Deposit(e *Engine, mask uint32, withCaller bool, amt *big.Int, v int, de
 		denom = []string{"ueure", "uusdc2", "", "usdc", "uu\u017fdc", "UU\u017fDC", "uusd\u0441"}[v%7]
 	}
 	if mask&P10Caller != 0 {
-		caller = [][]byte{nil, make([]byte, 32), Structured32(1)[:31], append(Structured32(1), 2)}[v%4]
+		caller = [][]byte{nil, make([]byte, 32), Structured32(1)[:31], append(Structured32(1), 2), append(Structured32(1), Structured32(2)[:8]...), append(Structured32(1), Structured32(2)...)}[v%6]
 	}
 	if mask&(PFrom|P8P9Deps) == 0 && v%5 == 3 {
 		from = LongAcct() // a depositor whose address is 32 bytes long
@@ -475,6 +475,32 @@ func runC08(rc *RunCtx) {
 			}
 		}
 	}
+	// (2a) negative limits (genesis and the token controller's transaction accept them): no positive amount is at most
+	// a negative number, so every deposit is refused - in particular the amounts around the limit's magnitude
+	ni := 0
+	for _, via := range []string{"", "uusdc"} {
+		for _, mag := range []*big.Int{big.NewInt(1), big.NewInt(2), big.NewInt(1000), new(big.Int).Sub(Two64, big.NewInt(1)), Two64, Two128} {
+			ni++
+			if ni%rc.NShards != rc.Shard {
+				continue
+			}
+			lim := new(big.Int).Neg(mag)
+			e, err := c08Engine(rc, lim, 0, nil, true, false, via)
+			if err != nil {
+				rc.Cov.Inconclusive(err.Error())
+				continue
+			}
+			for _, withCaller := range []bool{false, true} {
+				for _, amt := range []*big.Int{big.NewInt(1), new(big.Int).Sub(mag, big.NewInt(1)), mag, new(big.Int).Add(mag, big.NewInt(1)), Max256} {
+					if amt.Sign() <= 0 {
+						continue
+					}
+					run(e, c08Deposit(e, P2Limit, withCaller, amt, ni, "uusdc"), P2Limit, withCaller, "C08_negative_limits")
+					rc.Cov.Cell("C08_negative_limit_cells", fmt.Sprintf("via=%q/limit=-%s/amount=%s", via, amountClass(mag), amountClass(amt)))
+				}
+			}
+		}
+	}
 	// (2b) a configured limit is the limit until the token controller sets another one: registry maintenance in between
 	// (every pair of the token unlinked, pairs linked and unlinked again, messengers, attesters, roles, flags, sizes,
 	// limits of other tokens) leaves limit accepted and limit + 1 rejected
@@ -508,7 +534,9 @@ func runC08(rc *RunCtx) {
 			for k := range e.M.Pairs {
 				pairs = append(pairs, pk{k.Domain, k.Token})
 			}
-			sort.Slice(pairs, func(i, j int) bool { return pairs[i].d < pairs[j].d || (pairs[i].d == pairs[j].d && pairs[i].t < pairs[j].t) })
+			sort.Slice(pairs, func(i, j int) bool {
+				return pairs[i].d < pairs[j].d || (pairs[i].d == pairs[j].d && pairs[i].t < pairs[j].t)
+			})
 			for _, k := range pairs {
 				lt := e.M.Pairs[pairKey{k.d, k.t}]
 				admin("unlink-pair", &ct.MsgUnlinkTokenPair{From: e.M.TC, RemoteDomain: k.d, RemoteToken: []byte(k.t), LocalToken: lt})
@@ -639,6 +667,9 @@ func init() {
 			}
 			if c.Matrix["C08_subsets"]["plain/none/ok"] == 0 || c.Matrix["C08_subsets"]["with-caller/none/ok"] == 0 {
 				miss = append(miss, "empty subset never succeeded")
+			}
+			if len(c.Matrix["C08_negative_limit_cells"]) < 30 {
+				miss = append(miss, fmt.Sprintf("negative-limit cells: %d", len(c.Matrix["C08_negative_limit_cells"])))
 			}
 			if c.Matrix["C08_maintenance_steps"]["unlink-pair"] == 0 || len(c.Matrix["C08_maintenance_steps"]) < 15 {
 				miss = append(miss, fmt.Sprintf("limit-survives-maintenance steps: %d kinds", len(c.Matrix["C08_maintenance_steps"])))
